@@ -1,11 +1,14 @@
 package chain
 
 import (
+	"bytes"
+	"encoding/json"
 	"fmt"
+	"sort"
+	"strconv"
 
 	"github.com/pokt-network/posmint/crypto"
 	sdk "github.com/pokt-network/posmint/types"
-	"github.com/pokt-network/posmint/x/auth"
 	authTypes "github.com/pokt-network/posmint/x/auth/types"
 	govTypes "github.com/pokt-network/posmint/x/gov/types"
 	posTypes "github.com/pokt-network/posmint/x/pos/types"
@@ -109,12 +112,32 @@ func Build(t TxSpec) []byte {
 	return SignTx(msg, fee, t.Memo, t.Entropy, Key(signer), !t.NoPK)
 }
 
+// CanonicalSignBytes is the harness's own rendering of the documented sign bytes: the key-sorted
+// JSON object {chain_id, entropy, fee, memo, msg} with int64 and amounts as decimal strings and msg
+// = the message's own sign bytes. It is what an independent client implementation signs; the
+// repository's StdSignBytes must produce the same bytes (a deviation shows up as rejected
+// signatures in every chain-based check and as a C20 violation).
+func CanonicalSignBytes(chainID string, entropy int64, fee sdk.Coins, msg sdk.Msg, memo string) []byte {
+	js := func(s string) string { b, _ := json.Marshal(s); return string(b) }
+	var b bytes.Buffer
+	b.WriteString(`{"chain_id":` + js(chainID) + `,"entropy":"` + strconv.FormatInt(entropy, 10) + `","fee":[`)
+	sorted := append(sdk.Coins{}, fee...)
+	sort.Slice(sorted, func(i, j int) bool { return sorted[i].Denom < sorted[j].Denom })
+	for i, c := range sorted {
+		if i > 0 {
+			b.WriteByte(',')
+		}
+		b.WriteString(`{"amount":"` + c.Amount.String() + `","denom":` + js(c.Denom) + `}`)
+	}
+	b.WriteString(`],"memo":` + js(memo) + `,"msg":`)
+	b.Write(msg.GetSignBytes())
+	b.WriteString(`}`)
+	return b.Bytes()
+}
+
 // SignTx signs and encodes.
 func SignTx(msg sdk.Msg, fee sdk.Coins, memo string, entropy int64, priv crypto.PrivateKey, attachPK bool) []byte {
-	sb, err := auth.StdSignBytes(ChainID, entropy, fee, msg, memo)
-	if err != nil {
-		panic(err)
-	}
+	sb := CanonicalSignBytes(ChainID, entropy, fee, msg, memo)
 	sig, err := priv.Sign(sb)
 	if err != nil {
 		panic(err)
